@@ -772,6 +772,13 @@ class XlsxRowWriter(AbstractRowWriter):
         """
         return self._worksheet
 
+    def write_rows(self, rows_to_write):
+        assert self.workbook is not None
+        assert rows_to_write is not None
+
+        for row_to_write in rows_to_write:
+            self.write_row(row_to_write)
+
     def write_row(self, row_to_write):
         assert row_to_write is not None
 
